@@ -103,6 +103,31 @@ class PState(HState):
         if got != want:
             self.fail("C20.uidl", {}, want, got)
 
+    def ev_pop_uidl1(self, ev):
+        """UIDL n: the snapshot's UID for a listed message, -ERR otherwise."""
+        if not self._live():
+            return
+        n = ev["n"]
+        p = self.pop
+        st, _ = self._pop(f"UIDL {n}", False)
+        if st is None:
+            return
+        valid = 1 <= n <= len(p["snapshot"]) and n not in p["deleted"]
+        if valid:
+            parts = st.split()
+            if not st.startswith(b"+OK") or len(parts) < 3 or parts[1] != str(n).encode() or parts[2] != str(p["snapshot"][n - 1][0]).encode():
+                self.fail("C20.uidl", {"single": True}, f"+OK {n} {p['snapshot'][n - 1][0]}", st.decode("latin-1"))
+        elif st.startswith(b"+OK"):
+            self.fail("C20.retr-invalid-accepted", {"cmd": "UIDL"}, "-ERR", st.decode("latin-1"))
+
+    def ev_pop_raw(self, ev):
+        """An odd or malformed command line: exactly one -ERR (or +OK) status line, nothing marked, nothing removed."""
+        if not self._live():
+            return
+        st, _ = self._pop(ev["line"], ev.get("multiline", False))
+        if st is not None and ev.get("expect") == "err" and not st.startswith(b"-ERR"):
+            self.fail("C20.malformed-command-accepted", {"cmd": ev["line"].split()[0] if ev["line"].split() else ""}, "-ERR", st.decode("latin-1"))
+
     def ev_pop_retr(self, ev, top=None):
         if not self._live():
             return
